@@ -514,20 +514,24 @@ def calculate_bargraph_display(bardata, top: float, bar_widths: list[int], maxro
         la, ln = last[i]  # last attribute, last run length
         c = 0  # current column
         o = []  # output list to be added to rowsets
+
+        def add_run(attr: int, length: int, o=o) -> None:
+            if o and o[-1][0] == attr:
+                # same attribute, can combine
+                o[-1] = (attr, o[-1][1] + length)
+            else:
+                o.append((attr, length))
+
         for seg_num, start, end in r:
             while start > c + ln:
-                o.append((la, ln))
+                add_run(la, ln)
                 i += 1
                 c += ln
                 la, ln = last[i]
 
-            if la == seg_num:
-                # same attribute, can combine
-                o.append((la, end - c))
-            else:
-                if start - c > 0:
-                    o.append((la, start - c))
-                o.append((seg_num, end - start))
+            if start - c > 0:
+                add_run(la, start - c)
+            add_run(seg_num, end - start)
 
             if end == maxcol:
                 i = len(last)
@@ -539,26 +543,14 @@ def calculate_bargraph_display(bardata, top: float, bar_widths: list[int], maxro
                 c += ln
                 la, ln = last[i]
 
-            if la != seg_num:
-                ln = c + ln - end
-                c = end
-                continue
-
-            # same attribute, can extend
-            oa, on = o[-1]
-            on += c + ln - end
-            o[-1] = oa, on
-
-            i += 1
-            c += ln
-            if c == maxcol:
-                break
-            if i >= len(last):
-                raise ValueError(repr((on, maxcol)))
-            la, ln = last[i]
+            # the rest of the old segment may still be covered by the next new one
+            ln = c + ln - end
+            c = end
 
         if i < len(last):
-            o += [(la, ln)] + last[i + 1 :]
+            add_run(la, ln)
+            for attr, length in last[i + 1 :]:
+                add_run(attr, length)
         last = o
         y_count += 1
 
